@@ -1088,6 +1088,7 @@ func ruleNodeOwnership(c *Ctx, rule string) {
 // ---- O. no process-wide mutable state ---------------------------------------------------------------------------
 
 func ruleNoGlobalState(c *Ctx, rule string) {
+	c.Robust(rule)
 	c.Rule(rule, "databases share nothing in memory: package-level variables of storage and engine are written only by their declarations and init functions. A cache or counter kept in a package-level variable is shared by every database opened in the process")
 	w := c.W
 	n := 0
